@@ -316,6 +316,237 @@ def xthread_task_case(pre: Preempt, offset: int, variant: str) -> dict:
     return {'msgs': msgs, 'reached': reached}
 
 
+# ---- the union helper: registrations made by registered ones after close() has begun ---------------------
+
+def union_cases() -> list[dict]:
+    """The family: {close, aclose} × who is still running when close begins and registers the late threads (a registered task that is the main task of
+    its own event loop, a registered inner task, a registered thread) × the state of the thread monitor at that moment (no thread ever registered, one
+    registered and already reported, one that ends right after close began, one alive until the late ones are registered) × how the late threads
+    register (themselves / by whoever started them; 1–3 of them; the last one started and registered by the previous late thread)."""
+    late = [{'n_late': 1, 'reg_by': 'self', 'chain': False}, {'n_late': 1, 'reg_by': 'starter', 'chain': False},
+            {'n_late': 2, 'reg_by': 'self', 'chain': True}, {'n_late': 3, 'reg_by': 'starter', 'chain': False},
+            {'n_late': 2, 'reg_by': 'starter', 'chain': True}, {'n_late': 3, 'reg_by': 'self', 'chain': False}]
+    out = []
+    k = 0
+    for closer in ('close', 'aclose'):
+        for starter in ('task-main', 'task-inner', 'thread'):
+            for early in ('none', 'reported', 'ends-in-close', 'alive'):
+                for j in (0, 3):
+                    out.append({'closer': closer, 'starter': starter, 'early': early, 'delay': 0.25, **late[(k + j) % 6]})
+                k += 1
+    return out
+
+
+def union_case(case: dict) -> dict:
+    """`ThreadTaskDoneCallback` driven directly.  A registered task (or thread) is still running when close()/aclose() begins; only after close has
+    begun (the closer sets an event right before the call; the starter then waits `delay` ≫ the monitor interval) does it start threads that register
+    themselves or that it registers; it ends only after they have registered, so every registration is made while a registered one is still running.
+    Oracle (the property's words): when close returns every registered one has ended and been called back exactly once; no callback ran while its
+    thread/task was running; no callback is repeated afterwards."""
+    from nextline.utils.done_callback import ThreadTaskDoneCallback
+    log: list[str] = []
+    lock = threading.Lock()
+    names: dict = {}
+    called: list = []
+    early_cb: list = []
+    registered: list = []
+    harness: list[str] = []
+
+    def running(x: Any) -> bool:
+        return x.is_alive() if isinstance(x, threading.Thread) else not x.done()
+
+    def L(s: str) -> None:
+        with lock:
+            log.append(s)
+
+    def done(x: Any) -> None:
+        n = names.get(x, '?')
+        r = running(x)
+        with lock:
+            log.append(f'cb {n}')
+            called.append(n)
+            if r:
+                early_cb.append(n)
+
+    def note(n: str, x: Any) -> None:
+        with lock:
+            registered.append((n, x))
+            log.append(f'register {n}')
+
+    obj = ThreadTaskDoneCallback(done=done, interval=0.001)
+    n_late = case['n_late']
+    by_starter = case['reg_by'] == 'starter'
+    close_called = threading.Event()
+    starter_registered = threading.Event()
+    late_regd = [threading.Event() for _ in range(n_late)]
+    early_gate = threading.Event()
+    threads: list = []
+
+    def start_late(i: int) -> None:
+        t = threading.Thread(target=late, args=(i,), name=f'nlv-late{i}', daemon=True)
+        names[t] = f'L{i}'
+        with lock:
+            threads.append(t)
+            log.append(f'start L{i}')
+        t.start()
+        if by_starter:
+            obj.register(t)              # the thread is alive: it waits for this registration
+            note(f'L{i}', t)
+            late_regd[i].set()
+        if not late_regd[i].wait(30):
+            harness.append(f'late thread {i} did not register')
+
+    def late(i: int) -> None:
+        if not by_starter:
+            obj.register()
+            note(f'L{i}', threading.current_thread())
+            late_regd[i].set()
+        else:
+            late_regd[i].wait(30)
+        if case['chain'] and i == n_late - 2:
+            start_late(i + 1)            # a registered, running thread starts and registers the next one before it ends
+        time.sleep(0.03)
+        L(f'die L{i}')
+
+    def after_close_begins() -> None:
+        if not close_called.wait(30):
+            harness.append('close was not called')
+        if case['early'] == 'ends-in-close':
+            early_gate.set()
+            early.join(30)
+        time.sleep(case['delay'])
+        for i in range(n_late - 1 if case['chain'] else n_late):
+            start_late(i)
+        early_gate.set()                 # start_late() has waited for each registration (a chained one is waited for by the late thread that starts it)
+
+    def early_body() -> None:
+        if case['early'] != 'reported':
+            early_gate.wait(60)
+        L('die E')
+
+    async def main_task() -> None:
+        t = obj.register()               # the task; its host thread is not registered
+        names[t] = 'T'
+        note('T', t)
+        starter_registered.set()
+        await asyncio.sleep(0)
+        after_close_begins()
+        L('die T')
+
+    async def outer() -> None:
+        async def work() -> None:
+            await asyncio.sleep(0)
+            after_close_begins()
+            L('die T')
+        t = asyncio.ensure_future(work())
+        names[t] = 'T'
+        obj.register(t)
+        note('T', t)
+        starter_registered.set()
+        await t
+        await asyncio.sleep(0.02)
+
+    def thread_starter() -> None:
+        obj.register()
+        note('S', threading.current_thread())
+        starter_registered.set()
+        after_close_begins()
+        L('die S')
+
+    early: Any = None
+    if case['early'] != 'none':
+        early = threading.Thread(target=early_body, name='nlv-early', daemon=True)
+        names[early] = 'E'
+        threads.append(early)
+        L('start E')
+        early.start()
+        obj.register(early)
+        note('E', early)
+        if case['early'] == 'reported':
+            for _ in range(6000):
+                with lock:
+                    if 'E' in called:
+                        break
+                time.sleep(0.005)
+    if case['starter'] == 'thread':
+        host = threading.Thread(target=thread_starter, name='nlv-starter', daemon=True)
+        names[host] = 'S'
+    else:
+        host = threading.Thread(target=asyncio.run, args=((main_task if case['starter'] == 'task-main' else outer)(),), name='nlv-host', daemon=True)
+    host.start()
+    if not starter_registered.wait(30):
+        harness.append('the starter did not register')
+    at_return: dict = {}
+    err: list = []
+    closed = threading.Event()
+
+    def closer() -> None:
+        try:
+            if case['closer'] == 'close':
+                L('closeCall')
+                close_called.set()
+                obj.close()
+            else:
+                async def go() -> None:
+                    L('closeCall')
+                    close_called.set()
+                    await obj.aclose()
+                asyncio.run(go())
+        except BaseException as e:  # noqa
+            err.append(f'{type(e).__name__}: {e}')
+        with lock:
+            at_return['running'] = [n for n, x in registered if running(x)]
+            at_return['counts'] = {n: called.count(n) for n, _ in registered}
+            log.append('closeRet')
+        closed.set()
+    tc = threading.Thread(target=closer, name='nlv-closer', daemon=True)
+    tc.start()
+    msgs: list[str] = []
+    what = f"{case['closer']}()"
+    if not closed.wait(90):
+        with lock:
+            msgs.append(f'{what} did not return within 90 s (registered: {[n for n, _ in registered]}, still running: {[n for n, x in registered if running(x)]}, '
+                        f'called back: {sorted(called)})')
+        early_gate.set()
+        close_called.set()
+    host.join(30)
+    for t in list(threads):
+        t.join(30)
+    time.sleep(0.1)                      # a repeated callback would show up by now; nothing below waits for a callback that has not happened
+    if harness:
+        raise RuntimeError('; '.join(harness))
+    expect = 1 + (0 if case['early'] == 'none' else 1) + n_late
+    with lock:
+        if len(registered) != expect:
+            raise RuntimeError(f'{len(registered)} registrations, {expect} expected')
+        if at_return:
+            for n in at_return['running']:
+                msgs.append(f'{what} returned while {n} (registered by a still running registered {"thread" if case["starter"] == "thread" else "task"} '
+                            f'after {what} had begun) was still running')
+            for n, c in at_return['counts'].items():
+                if c != 1:
+                    msgs.append(f'{what} returned when the callback of registered {n} had run {c} times')
+        for n in early_cb:
+            msgs.append(f'the callback of {n} ran while it was still running')
+        for n, _ in registered:
+            if called.count(n) != 1:
+                msgs.append(f'{n} was registered and has ended; its callback ran {called.count(n)} times ({what} has returned)')
+        if err:
+            msgs.append(f'{what} raised {err[0]}')
+        return {'log': list(log), 'msgs': msgs}
+
+
+def _ushard(cases: list) -> list:
+    out = []
+    for c in cases:
+        try:
+            r = union_case(c)
+            out.append((c, r['log'], r['msgs'], None))
+        except BaseException as e:  # noqa
+            out.append((c, [], [], f'{type(e).__name__}: {e}'))
+    return out
+
+
 def lines_of(log: list[str], raising: bool) -> list[str]:
     return [f"threads {'1' if raising else '-'}"] + ['obs ' + l for l in log]
 
@@ -427,7 +658,10 @@ def run(chk: common.Check) -> None:
                     'register (registering thread parked there): a second thread registers / ends in the gap, then both end and close() is called; '
                     '× {callback raises or not} × {second thread dies in the gap or after}. TaskDoneCallback: ≤ 4 tasks, random completion and '
                     'registration points (incl. double registration) under the permuting loop; and one TaskDoneCallback shared by tasks of two threads with their '
-                    'own event loops, thread A parked before every bytecode of _callback while thread B registers / is called back. Observed label sequences are checked for '
+                    'own event loops, thread A parked before every bytecode of _callback while thread B registers / is called back. ThreadTaskDoneCallback (union): a registered task / '
+                    'thread still running when close() / aclose() begins starts 1–3 threads afterwards that register (themselves, by their starter, or chained), × state of the '
+                    'thread monitor at that moment (idle, one reported, one ending, one alive); close must return only after all of them ended and were called back once. '
+                    'Observed label sequences are checked for '
                     'acceptance by the Lean LTS. Non-trivial: the preemption point was actually reached; distinct = distinct (point, variant).')
     chk.assumptions += ['preemption is forced only before the chosen bytecode; other GIL switch points are whatever CPython produces',
                         'registrations precede close() (documented contract of close)']
@@ -462,6 +696,8 @@ def run(chk: common.Check) -> None:
         from nextline.utils.done_callback.task import TaskDoneCallback
         xcases = [(off, v) for off in offsets_of(TaskDoneCallback._callback) for v in ('register', 'complete')]
         xres = pool.map(_xshard, [xcases[i::n] for i in range(n)])
+        ucases = union_cases()
+        ures = pool.map(_ushard, [ucases[i::n] for i in range(n)])
     rows = []
     for sh in res:
         for i, lines, msgs, reached, err in sh:
@@ -507,6 +743,16 @@ def run(chk: common.Check) -> None:
             chk.cov.count('where', 'task-callback')
             if msgs:
                 oracle_fail.append((('task-callback', off, variant, False), [], msgs))
+    # the union helper: threads registered by a still running registered task / thread after close() / aclose() has begun
+    for sh in ures:
+        for c, ulog, msgs, err in sh:
+            if err:
+                msgs = [f'the scenario did not complete: {err[:300]}']
+            chk.cov.case(repr(('union-late-register', sorted(c.items()))))
+            chk.cov.count('where', 'union-late-register')
+            chk.cov.count('kinds', f"union-{c['closer']}-{c['starter']}-early-{c['early']}")
+            if msgs:
+                oracle_fail.append((('union-late-register', None, c, False), ['obs ' + l for l in ulog], msgs))
     # the consequence the property names: every trace that starts in the child is reported as ended — through the real trace machinery
     # in-process, on programs whose threads and tasks end in every way (return, raise, cancellation, left pending, not joined)
     from .. import progs
@@ -516,7 +762,14 @@ def run(chk: common.Check) -> None:
                                   progs.sequential_tasks(random.Random(4), 6),
                                   ("import threading, asyncio\ndef boom():\n    raise ValueError('in thread')\nt = threading.Thread(target=boom)\nt.start()\nt.join()\n"
                                    "async def bad():\n    raise KeyError('in task')\nasync def amain():\n    r = await asyncio.gather(bad(), return_exceptions=True)\n"
-                                   "asyncio.run(amain())\nx = 1\n", {})]):
+                                   "asyncio.run(amain())\nx = 1\n", {}),
+                                  # a thread whose only script code runs inside a task (target=asyncio.run) outlives the script, which does not join it; after the
+                                  # script has ended the task runs a script function in an executor thread that exists already but has not run script code yet.
+                                  # (If the timing is different — the script is still running, or the executor thread is created later — the traces start and
+                                  # end in the ordinary way or do not start at all: the oracle below holds either way.)
+                                  ("import asyncio\nimport threading\nimport time\n\n\ndef work():\n    time.sleep(0.05)\n\n\nasync def coro():\n"
+                                   "    await asyncio.to_thread(time.sleep, 0.01)\n    await asyncio.sleep(0.5)\n    await asyncio.to_thread(work)\n\n\n"
+                                   "threading.Thread(target=asyncio.run, args=(coro(),)).start()\ntime.sleep(0.2)\n", {})]):
         for pol in ({'kind': 'all', 'command': 'next'}, {'kind': 'all', 'command': 'continue'}):
             tspecs.append({'source': src, 'policy': pol, 'trace_threads': True, 'trace_modules': False, 'kind': 'every-trace-ends', 'timeout': 40,
                            'want_reference': False, 'want_recorder': False})
